@@ -7,7 +7,7 @@ from .rules.refusals import rule_assert, rule_kwsig, rule_raise, rule_regkey
 from .rules.truthy import rule_truthy
 from .rules.purity import rule_pure, rule_args, rule_global, rule_memo, rule_getter, rule_capture
 from .rules.token import rule_token
-from .rules.graph import rule_keys, rule_order, rule_cover, rule_axiskey, rule_contig, rule_loopstore, rule_bitmask, rule_meshindex
+from .rules.graph import rule_keys, rule_order, rule_cover, rule_axiskey, rule_contig, rule_loopstore, rule_bitmask, rule_meshindex, rule_wholepart
 from .rules import misc as M
 from .rules.lazyrule import rule_lazy
 from .rules.pickle_nondet import rule_pickle, rule_nondet, rule_fillflow
@@ -19,7 +19,7 @@ from .rules.wiring import rule_passthrough_sort, rule_passthrough_engine, rule_c
 
 PROPERTIES = {
     "C01": {
-        "rules": [rule_dispatch, rule_stable, rule_passthrough_engine, M.rule_varshift, PR.rule_pairs_perm, PR.rule_layout, CD.rule_missingcode, PR.rule_unpermute, CD.rule_countwidth, PR.rule_forder, M.rule_varwidth, M.rule_accforward, M.rule_novalid],
+        "rules": [rule_dispatch, rule_stable, rule_passthrough_engine, M.rule_varshift, PR.rule_pairs_perm, PR.rule_layout, CD.rule_missingcode, PR.rule_unpermute, CD.rule_countwidth, PR.rule_forder, M.rule_varwidth, M.rule_accforward, M.rule_novalid, M.rule_castorder],
         "thorough": [selftest, seeded_regression],
         "technique": "engine-dispatch model + sibling cross-check of kernel signatures (custom AST checker)",
         "level_text": "Static, all-paths: for every kernel name a blueprint can ask for and every engine, the implementation the dispatch "
@@ -124,7 +124,7 @@ PROPERTIES = {
         "explanation": "R-SCANTABLE, R-STABLE, R-PROMOTE, R-PURE (the scan combine is a node of a parallel-prefix tree: it may not write into an operand another node reads), R-KINDMISSING (the 'no missing values' shortcut of fill scans fires only for kinds without a missing value)",
     },
     "C11": {
-        "rules": [M.rule_dtypetable, M.rule_finalcast, M.rule_promote, PR.rule_pairs_outinds, M.rule_reindexdtype, M.rule_subsumed, M.rule_accdtype, M.rule_finaldeps, M.rule_roundtrip, M.rule_fillwiden, rule_blockbcast, rule_arity, M.rule_fillcast],
+        "rules": [M.rule_dtypetable, M.rule_finalcast, M.rule_promote, PR.rule_pairs_outinds, M.rule_reindexdtype, M.rule_subsumed, M.rule_accdtype, M.rule_finaldeps, M.rule_roundtrip, M.rule_fillwiden, rule_blockbcast, rule_arity, M.rule_fillcast, M.rule_promoteidem],
         "thorough": [selftest, seeded_regression],
         "technique": "dtype convention table; CFG must-pass-through of the final cast; access-path agreement of announced meta",
         "level_text": "Static, all-paths: blueprint dtype declarations follow the NumPy convention table, every path of the finalizer casts "
@@ -161,7 +161,7 @@ PROPERTIES = {
         "explanation": "R-COLLIDE, R-CASTORDER, R-INFRESOLVE, R-VARSHIFT, R-ACCDTYPE (integer block accumulators are as wide as the final dtype)",
     },
     "C03": {
-        "rules": [rule_keys, rule_order, rule_axiskey, rule_global, rule_algebra, rule_contig, rule_pure, rule_passthrough_sort],
+        "rules": [rule_keys, rule_order, rule_axiskey, rule_global, rule_algebra, rule_contig, rule_pure, rule_passthrough_sort, rule_wholepart],
         "thorough": [selftest, seeded_regression],
         "technique": "def-use closure of graph keys over enclosing loops; taint (unordered source -> block selection) with sanitizers; "
                      "module-state scan; associativity column of the monoid table",
@@ -173,7 +173,7 @@ PROPERTIES = {
         "explanation": "R-KEYS, R-ORDER, R-AXISKEY, R-GLOBAL, R-ALGEBRA, R-CONTIG, R-PURE (no task writes into a value another task may read: the order of unordered tasks cannot matter)",
     },
     "C09": {
-        "rules": [rule_cover, rule_keys, rule_axiskey, rule_token, rule_loopstore, rule_bitmask, CD.rule_indexer, rule_meshindex],
+        "rules": [rule_cover, rule_keys, rule_axiskey, rule_token, rule_loopstore, rule_bitmask, CD.rule_indexer, rule_meshindex, rule_wholepart],
         "thorough": [selftest, seeded_regression],
         "technique": "def-use closure checks on the planner's cohort->blocks map and on cohort sub-tree keys; content-named subset layers",
         "level_text": "Static, all-paths: the block set stored for a merged cohort is computed from the blocks of every member label (and "
